@@ -69,7 +69,10 @@ def matchParen : Nat → List Tok → Option (List Tok × List Tok)
       (matchParen level' rest).map fun (c, r) => (t :: c, r)
 
 def isParam (args : List MacroArg) (t : Tok) : Bool := args.any (fun a => a.name == t.text)
-def isVaParam (args : List MacroArg) (t : Tok) : Bool := args.any (fun a => a.name == t.text && a.isVa)
+def isVaParam (args : List MacroArg) (t : Tok) : Bool :=
+  match args.find? (fun a => a.name == t.text) with
+  | some a => a.isVa
+  | none => false
 
 /-- parse a replacement list (`isFn`: `#` is an operator only in function-like macros) -/
 def parseBody (isFn : Bool) (args : List MacroArg) : Nat → List Tok → Except Err (List Item)
